@@ -61,7 +61,7 @@ def replay(g, o, assigns, path):
 
 MANIFEST = {
     "category": "proof",
-    "text": 'Proof on the extracted skeleton: from ANY object state (arbitrary buffer sizes, counters, flags, factorization) init(v) establishes the canonical state - buffers re-sized, flags cleared, counters zeroed, step-1 factorization stamped with this init - and compute() reads only data stamped at or after that init; hence init(v);compute(args) is a function of (operator, nev, ncv, v, args) under the stated determinism assumption on Eigen and the operator. BKLDLT::compute and compress_permutation (state re-used by the stock shift-solve operators across set_shift calls) are proved from an arbitrary prior state in the same check.',
+    "text": 'Proof on the extracted skeleton: from ANY object state (arbitrary buffer sizes, counters, flags, factorization) init(v) establishes the canonical state - buffers re-sized, flags cleared, counters zeroed, step-1 factorization stamped with this init - and compute() reads only data stamped at or after that init; hence init(v);compute(args) is a function of (operator, nev, ncv, v, args) under the stated determinism assumption on Eigen and the operator. BKLDLT::compute and compress_permutation (state re-used by the stock shift-solve operators across set_shift calls) are proved from an arbitrary prior state in the same check. Since the second session the operator-shift clause also covers exceptional exits of the complex-shift root selection (F16) and the partial SVD cache groups (svd.compute / matrix_U / matrix_V: vectors of an earlier run are never returned) are part of this check.',
     "note": 'floating-point values of Eigen expressions are havocked (lossy extraction, every abstracted statement listed in the evidence); callee contracts are generated stubs sharing clause texts with the enforcing harness; std::sort/Eigen/operator contracts assumed; Skolem instantiation meta-rule',
     "technique": "CBMC dfcc frame contracts + loop contracts + harness-asserted postconditions on mechanically extracted C (cadical)",
 }
